@@ -8,6 +8,7 @@
 #include <aws/common/byte_buf.h>
 #include <aws/common/hash_table.h>
 #include <aws/common/private/hash_table_impl.h>
+#include <aws/common/string.h>
 #include <inttypes.h>
 #include <stdlib.h>
 #include <string.h>
@@ -117,6 +118,13 @@ static void s_destroy_val(void *val) {
         s_fmt_val(b + 2, val);
         sl_push(&s_dlog, b);
     }
+}
+
+/* a value_eq callback that is not pointer equality: values v<n> are equal when n agrees mod 8 (never sees NULL) */
+static bool s_val_eq_mod8(const void *a, const void *b) {
+    long x = (long)((const char *)a - s_valbase - 1), y = (long)((const char *)b - s_valbase - 1);
+    HC_CHECK(a && b);
+    return (x % 8) == (y % 8);
 }
 
 static void s_print_dlog(void) {
@@ -358,6 +366,44 @@ int main(void) {
             struct aws_byte_cursor c = {.len = len, .ptr = len ? p : NULL};
             printf("W hashic %016" PRIx64 "\n", aws_hash_byte_cursor_ptr_ignore_case(&c));
             free(p);
+        } else if (!strcmp(t[0], "hl2") && n == 2) {
+            /* content hashes with the key placed at every alignment mod 4: exercises the 32-bit, 16-bit and
+             * byte paths of hashlittle2 against the byte-wise model */
+            size_t len;
+            uint8_t *p = hc_hex_decode(t[1], &len);
+            uint8_t *buf = malloc(len + 16);
+            HC_CHECK(buf && ((uintptr_t)buf & 3) == 0);
+            uint64_t hc[4], hs, hz[4];
+            for (int off = 0; off < 4; ++off) {
+                memset(buf, 0xEE, len + 16);
+                memcpy(buf + off, p, len);
+                struct aws_byte_cursor c = {.len = len, .ptr = (len == 0 && off == 0) ? NULL : buf + off};
+                hc[off] = aws_hash_byte_cursor_ptr(&c);
+            }
+            struct aws_string *str = aws_string_new_from_array(hc_allocator(), p, len);
+            HC_CHECK(str);
+            hs = aws_hash_string(str);
+            aws_string_destroy(str);
+            for (int off = 0; off < 4; ++off) {
+                memset(buf, 0xEE, len + 16);
+                memcpy(buf + off, p, len);
+                buf[off + len] = 0;
+                hz[off] = aws_hash_c_string((const char *)(buf + off));
+            }
+            /* property monitor: equal contents hash equally wherever they are stored */
+            bool same = hc[0] == hc[1] && hc[1] == hc[2] && hc[2] == hc[3] && hc[0] == hs && hz[0] == hz[1] &&
+                        hz[1] == hz[2] && hz[2] == hz[3] && (memchr(p, 0, len) != NULL || hz[0] == hs);
+            printf("P hl2 consistent=%d\n", (int)same);
+            printf(
+                "W hl2 cur=%016" PRIx64 ",%016" PRIx64 ",%016" PRIx64 ",%016" PRIx64 " str=%016" PRIx64
+                " cstr=%016" PRIx64 ",%016" PRIx64 ",%016" PRIx64 ",%016" PRIx64 "\n",
+                hc[0], hc[1], hc[2], hc[3], hs, hz[0], hz[1], hz[2], hz[3]);
+            free(buf);
+            free(p);
+        } else if (!strcmp(t[0], "hptr") && n == 2) {
+            printf("W hptr %016" PRIx64 "\n", aws_hash_ptr((const void *)(uintptr_t)strtoull(t[1], NULL, 16)));
+        } else if (!strcmp(t[0], "hcomb") && n == 3) {
+            printf("W hcomb %016" PRIx64 "\n", aws_hash_combine(strtoull(t[1], NULL, 16), strtoull(t[2], NULL, 16)));
         } else if (!strcmp(t[0], "eqic") && n == 3) {
             size_t la, lb;
             uint8_t *pa = hc_hex_decode(t[1], &la), *pb = hc_hex_decode(t[2], &lb);
@@ -524,12 +570,14 @@ int main(void) {
             puts("P move");
             s_state_lines(t[1], &s_tab[a]);
             s_state_lines(t[2], &s_tab[b]);
-        } else if (!strcmp(t[0], "eq") && n == 3 && (a = s_tab_idx(t[1])) >= 0 && (b = s_tab_idx(t[2])) >= 0) {
+        } else if ((!strcmp(t[0], "eq") || !strcmp(t[0], "eqm")) && n == 3 && (a = s_tab_idx(t[1])) >= 0 &&
+                   (b = s_tab_idx(t[2])) >= 0) {
             if (!s_tab[a].p_impl || !s_tab[b].p_impl) {
                 puts("P nil");
                 continue;
             }
-            printf("P eq %d\n", (int)aws_hash_table_eq(&s_tab[a], &s_tab[b], aws_ptr_eq));
+            bool m8 = !strcmp(t[0], "eqm");
+            printf("P %s %d\n", t[0], (int)aws_hash_table_eq(&s_tab[a], &s_tab[b], m8 ? s_val_eq_mod8 : aws_ptr_eq));
         } else if (!strcmp(t[0], "iter_begin") && n == 3 && (a = s_tab_idx(t[1])) >= 0 && (b = s_iter_idx(t[2])) >= 0) {
             if (!s_tab[a].p_impl) {
                 puts("P nil");
